@@ -1,4 +1,5 @@
 import os, sys, re, itertools
+import vf
 from vf import Check, Stream, hexs
 
 # ---------------------------------------------------------------------------------------------
@@ -7,13 +8,26 @@ from vf import Check, Stream, hexs
 # aim at.  It is not an oracle: expected observations come from the extracted Coq spec/model.
 # ---------------------------------------------------------------------------------------------
 
+UMAX = 2**64 - 1
+UNSAT = 2**63 - 1          # the first capacity that does not fit: capacity + 1 > PTRDIFF_MAX
+
+
+def huge(rng, s):
+    """sizes whose allocation cannot be satisfied; 2^64-1 is the one where capacity + 1 wraps to 0"""
+    return rng.choice([UMAX, UMAX, UMAX, UMAX - 1, UMAX - max(s.size, 1), UMAX - s.cap, 2**63, 2**63 - 1, 2**63 + s.size])
+
+
 class Sh:
+    dead = False           # the history ended in a request that cannot be satisfied
+
     """kind: 'D' default/empty non-owning, 'O' owning, 'A' attached (non-empty or empty foreign window)"""
     def __init__(self, kind='D', start=0, size=0, cap=0):
         self.kind, self.start, self.size, self.cap = kind, start, size, cap
 
     def copy(self):
-        return Sh(self.kind, self.start, self.size, self.cap)
+        t = Sh(self.kind, self.start, self.size, self.cap)
+        t.dead = self.dead
+        return t
 
     def own(self, size, cap, start=0):
         self.kind, self.start, self.size, self.cap = 'O', start, size, cap
@@ -30,6 +44,9 @@ class Sh:
 
     def resize(self, n):
         k = self.kind
+        if n >= UNSAT:
+            self.dead = True
+            return 'resize/unsat/' + k
         if n > self.cap:
             lab = 'resize/realloc' + ('-shrink' if n < self.size else '') + '/' + k
             self.own(n, n); return lab
@@ -53,6 +70,9 @@ class Sh:
 
     def reserve(self, c):
         k = self.kind
+        if c >= UNSAT:
+            self.dead = True
+            return 'reserve/unsat/' + k
         if c <= self.cap:
             return 'reserve/noop/' + k
         lab = 'reserve/realloc' + ('-below-size' if c < self.size else '') + '/' + k
@@ -107,6 +127,7 @@ class Gen:
     def __init__(self, rng, allow_attach, allow_alias, maxv=4, big=False):
         self.rng, self.allow_attach, self.allow_alias, self.maxv, self.big = rng, allow_attach, allow_alias, maxv, big
         self.ops, self.sh, self.labels = [], [], []
+        self.dead = False
 
     def n(self, hi=12):
         r = self.rng
@@ -125,6 +146,9 @@ class Gen:
         if k < 0.35 or not self.sh:
             self.sh.append(Sh()); self.emit('new', 'ctor/default')
         elif k < 0.55:
+            if self.sh and r.random() < 0.04:
+                self.emit('newcap %d' % huge(r, Sh()), 'ctor/unsat'); self.dead = True
+                return
             c = self.n(16); s = Sh(); s.own(0, c); self.sh.append(s); self.emit('newcap %d' % c, 'ctor/cap')
         elif k < 0.8:
             n = self.n(); s = Sh(); s.own(n, n); self.sh.append(s); self.emit('newdata ' + hexs(data(r, n)), 'ctor/data')
@@ -150,6 +174,8 @@ class Gen:
                 if goal == 'headroom' and s.start > 0: return r.randrange(1, s.start + 1)
                 if goal == 'shift' and s.cap - s.size > s.start: return r.randrange(s.start + 1, s.cap - s.size + 1)
                 if goal == 'realloc': return max(s.start, s.cap - s.size) + 1 + r.randrange(3)
+        if what in ('resize', 'reserve') and r.random() < 0.05:
+            return huge(r, s)
         if what == 'resize':
             goal = r.choice(['realloc', 'inplace', 'compact', 'same', 'zero', 'exact'])
             if goal == 'realloc': return s.cap + 1 + r.randrange(4)
@@ -197,6 +223,8 @@ class Gen:
         s = self.sh[v]
         kinds = ['prepend', 'append', 'resize', 'assign', 'reserve', 'rmfront', 'rmback', 'rmfront',
                  'clear', 'free', 'swap', 'asg', 'appendb', 'prependb', 'eq', 'prepend', 'append', 'resize']
+        if self.allow_alias:
+            kinds += ['appendat', 'appendat', 'assignat', 'prependat', 'prependat']
         if self.allow_attach:
             kinds += ['attach', 'attach', 'attach']
         what = r.choice(kinds)
@@ -204,7 +232,7 @@ class Gen:
             n = self.directed_size(s, what) if r.random() < 0.8 else None
             if n is None:
                 n = self.n()
-            if what not in ('rmfront', 'rmback'):
+            if what not in ('rmfront', 'rmback') and n < UNSAT:
                 n = min(n, 400)
             if what == 'prepend': self.emit('prepend %d %s' % (v, hexs(data(r, n))), s.prepend(n))
             elif what == 'append': self.emit('append %d %s' % (v, hexs(data(r, n))), s.append(n))
@@ -213,6 +241,16 @@ class Gen:
             elif what == 'reserve': self.emit('reserve %d %d' % (v, n), s.reserve(n))
             elif what == 'rmfront': self.emit('rmfront %d %d' % (v, n), s.rmfront(n))
             else: self.emit('rmback %d %d' % (v, n), s.rmback(n))
+            if s.dead: self.dead = True
+        elif what in ('appendat', 'assignat', 'prependat'):
+            # a source inside the Buffer's own window; n steered like the plain call
+            base = what[:-2]
+            n = self.directed_size(s, base) if r.random() < 0.7 else None
+            if n is None or n > s.size:
+                n = r.randrange(0, s.size + 1)
+            off = r.choice([0, s.size - n, r.randrange(0, s.size - n + 1)])
+            lab = what + ':' + (s.append(n) if base == 'append' else s.assign(n) if base == 'assign' else s.prepend(n))
+            self.emit('%s %d %d %d' % (what, v, off, n), lab)
         elif what == 'clear': self.emit('clear %d' % v, s.clear())
         elif what == 'free': self.emit('free %d' % v, s.free())
         elif what == 'attach':
@@ -241,6 +279,8 @@ class Gen:
         r = self.rng
         self.new_var()
         for _ in range(nops):
+            if self.dead:
+                break
             if len(self.sh) < self.maxv and r.random() < (0.5 if len(self.sh) < 2 else 0.08):
                 self.new_var()
             else:
@@ -259,10 +299,16 @@ def small_scope_cases(depth, attach, alphabet=None):
          'reserve 1 8', 'rmfront 1 1', 'rmfront 1 9', 'rmback 1 0', 'rmback 1 1', 'rmback 1 9',
          'rmfront 1 18446744073709551615', 'rmback 1 18446744073709551615', 'assign 1 -', 'assign 1 4142', 'clear 1', 'free 1',
          'swap 0 1', 'asg 0 1', 'asg 1 0', 'appendb 0 1', 'prependb 1 0', 'prepend 0 61', 'append 0 -', 'rmback 0 0', 'resize 0 0', 'eq 0 1',
-         'asg 1 1', 'appendb 1 1', 'prependb 1 1'] +
+         'asg 1 1', 'appendb 1 1', 'prependb 1 1',
+         'resize 1 18446744073709551615', 'reserve 1 18446744073709551615', 'resize 0 18446744073709551615',
+         'newcap 18446744073709551615', 'reserve 0 9223372036854775807',
+         'appendat 1 1 2', 'appendat 1 0 1', 'assignat 1 1 2', 'assignat 1 0 3', 'prependat 1 0 2', 'prependat 1 1 1'] +
         (['attach 1 3132333435', 'attach 0 -', 'attach 1 39'] if attach else []))
     out = []
+    dead_end = re.compile(r'^(resize|reserve|newcap) .*\d{19}')
     for seq in itertools.product(a, repeat=depth):
+        if any(dead_end.match(o) for o in seq[:-1]) and seq[-1] != a[0]:
+            continue                    # nothing runs after a request that cannot be satisfied: keep one continuation
         out.append(base + list(seq))
     return out
 
@@ -292,6 +338,9 @@ def branch_scope_cases(maxcap, count):
             elif kind == 'rmback': lab = t.rmback(n); line = 'rmback 0 %d' % n
             elif kind == 'appendb': lab = 'appendb/self:' + t.append(t.size); line = 'appendb 0 0'
             elif kind == 'prependb': lab = 'prependb/self:' + t.prepend(t.size); line = 'prependb 0 0'
+            elif kind == 'appendat': lab = 'appendat:' + t.append(n[1]); line = 'appendat 0 %d %d' % n
+            elif kind == 'assignat': lab = 'assignat:' + t.assign(n[1]); line = 'assignat 0 %d %d' % n
+            elif kind == 'prependat': lab = 'prependat:' + t.prepend(n[1]); line = 'prependat 0 %d %d' % n
             else: lab = t.clear(); line = 'clear 0'
             count('scope:' + lab)
             out.append(pro + [line, 'append 0 7e', 'prepend 0 7c'])
@@ -307,9 +356,16 @@ def branch_scope_cases(maxcap, count):
         for n in (0, c, c + 1): cand.append(('assign', n))
         for n in (0, sz - 1, sz, sz + 1, 2**64 - 1, 2**64 - max(sz, 1), 2**63): cand.append(('rmfront', n)); cand.append(('rmback', n))
         cand += [('appendb', 0), ('prependb', 0), ('clear', 0)]
+        # sizes no allocation can satisfy; 2^64-1 is where capacity + 1 wraps to 0
+        for n in (UMAX, (UMAX - 1, UMAX - sz, UNSAT, 2**63)[(c + st + sz) % 4]): cand.append(('resize', n)); cand.append(('reserve', n))
+        # a source inside the window: every (offset, length) for small windows, the corners for larger ones
+        pairs = [(o, n) for o in range(sz + 1) for n in range(sz - o + 1)] if sz <= 3 else \
+                [(0, 0), (0, 1), (0, sz), (1, sz - 1), (sz - 1, 1), (sz, 0), (1, 1), (0, sz - 1), (1, 2), (2, 2)]
+        for pr in pairs:
+            cand += [('appendat', pr), ('assignat', pr), ('prependat', pr)]
         seen, res = set(), []
         for o in cand:
-            if o[1] >= 0 and o not in seen:
+            if (o[1] >= 0 if isinstance(o[1], int) else True) and o not in seen:
                 seen.add(o); res.append(o)
         return res
 
@@ -321,6 +377,10 @@ def branch_scope_cases(maxcap, count):
                 if k: pro.append('append 0 ' + hexs(_bytes(k))); sh.append(k)
                 if f: pro.append('rmfront 0 %d' % f); sh.rmfront(f)
                 emit(pro, sh, args(sh))
+    for n in (UMAX, UMAX - 1, 2**63, UNSAT):
+        count('scope:ctor/unsat')
+        out.append(['new', 'newcap %d' % n, 'append 0 7e'])
+        out.append(['newcap %d' % n])
     for k in range(0, 5):
         for f in range(0, k + 1):
             sh = Sh(); sh.attach(k)
@@ -391,7 +451,11 @@ class C08(Check):
                 'reserve/noop/O', 'reserve/realloc/O', 'reserve/realloc/A', 'reserve/realloc-below-size/A',
                 'rmfront/part/O', 'rmfront/all/O', 'rmfront/over/O', 'rmfront/part/A', 'rmfront/all/A', 'rmfront/over/D',
                 'rmback/part/O', 'rmback/all/O', 'rmback/over/O', 'rmback/part/A', 'rmback/all/A', 'rmback/over/D',
-                'clear/O', 'clear/A', 'clear/D']
+                'clear/O', 'clear/A', 'clear/D',
+                'resize/unsat/O', 'resize/unsat/A', 'resize/unsat/D', 'reserve/unsat/O', 'reserve/unsat/A', 'reserve/unsat/D', 'ctor/unsat',
+                'appendat:append:resize/realloc/O', 'appendat:append:resize/compact/O', 'appendat:append:resize/inplace/O',
+                'appendat:append:resize/realloc/A', 'assignat:assign/inplace/O', 'assignat:assign/realloc/A',
+                'prependat:prepend/headroom/O', 'prependat:prepend/shift/O', 'prependat:prepend/realloc/O', 'prependat:prepend/realloc/A']
 
     def __init__(self):
         super().__init__()
@@ -444,6 +508,14 @@ class C08(Check):
                 parts.append(Stream('%s-%02d' % (st.name, i), st.cases[i::nb], exhaustive=st.exhaustive,
                                     note='%s (part %d/%d)' % (st.note, i + 1, nb)))
         return parts
+
+    def run_impl(self, cases, tag='impl'):
+        # Histories that end in a request new[] cannot satisfy end the harness process (that is the behaviour under
+        # test: `! oom`), about 400 times per run.  The sanitizer's symbolizer costs 150 ms per report and nothing
+        # here reads the stack trace, only the report kind: switch it off.
+        env = {'ASAN_OPTIONS': 'detect_leaks=0:abort_on_error=0:allocator_may_return_null=1:max_allocation_size_mb=2048:symbolize=0'}
+        return vf.run_exe_on_cases(self.exes['impl'], cases, os.path.join(vf.BUILD, self.id, 'run'), tag, is_impl=True,
+                                   per_case_timeout=self.per_case_timeout, env=env)
 
     def nontrivial(self, case, obs):
         """measured on the implementation's own internal dump: the history must reach at least two of
